@@ -88,3 +88,11 @@ def implies_under(pc, f, g, naming=None):
             gf = False
     extra = [a for a in G.atoms_of(f) if a not in G.atoms_of(g) and a not in G.atoms_of(pc)]
     return fg, gf, extra
+
+
+def select(expr, valuation):
+    """The leaf of a (nested) conditional expression selected by a valuation of the atoms of its tests."""
+    while isinstance(expr, ast.IfExp):
+        f = G._formula(expr.test)
+        expr = expr.body if G.evaluate(f, {a: valuation.get(a, False) for a in G.atoms_of(f)}) else expr.orelse
+    return expr
